@@ -278,3 +278,33 @@ package asn1
 //@ at y assert [the-year-of-the-time-itself] y.t == t
 //@ at d4 assert [four-digit-year] d4.v == y.res && d4.dst == dst
 //@ at tc assert [same-time] tc.t == t
+
+// UTCTime on the decoding side (RFC 5280 4.1.2.5.1): two-digit years 50..99 are 1950..1999 and 00..49
+// are 2000..2049 — decided on the calendar year Go's two-digit-year parsing produced (it maps 69..99 to
+// 19xx and 00..68 to 20xx, so exactly the years 2050..2068 are moved back a century); the text must
+// serialise back to itself.
+//@ func parseUTCTime
+//@ props C10 C11
+//@ pure
+//@ site time.Parse#1 as p1
+//@ site time.Parse#2 as p2
+//@ site Format#1 as fm
+//@ site Year#1 as y
+//@ site AddDate#1 as ad
+//@ ensures [unparsable-in-both-layouts-is-an-error] p1.res1 != nil && p2.called && p2.res1 != nil ==> err != nil
+//@ ensures [text-that-does-not-serialise-back-is-an-error] fm.called && fm.res != p1.value ==> err != nil
+//@ ensures [years-from-2050-on-are-moved-back-one-century-and-no-others] err == nil ==> y.called && (y.res >= 2050 ==> ad.called && ret == ad.res) && (y.res < 2050 ==> !ad.called)
+//@ ensures [a-parsable-text-that-serialises-back-is-accepted] (p1.res1 == nil || (p2.called && p2.res1 == nil)) && fm.called && fm.res == p1.value ==> err == nil
+//@ at fm assert [serialises-the-parsed-time-in-the-layout-that-parsed] fm.layout == formatStr
+//@ at y assert [the-year-of-the-parsed-time] y.t == ret
+//@ at ad assert [exactly-one-hundred-years-back] ad.t == ret && ad.years == -100 && ad.months == 0 && ad.days == 0
+
+//@ func parseGeneralizedTime
+//@ props C10 C11
+//@ pure
+//@ site time.Parse#1 as p1
+//@ site Format#1 as fm
+//@ ensures [accepted-exactly-when-it-parses-in-the-der-layout-and-serialises-back] err == nil <==> (p1.res1 == nil && fm.called && fm.res == p1.value)
+//@ ensures [the-parsed-time-is-returned-unchanged] err == nil ==> ret == p1.res0
+//@ at p1 assert [der-layout-with-seconds-and-zone] p1.layout == "20060102150405Z0700"
+//@ at fm assert [serialises-the-parsed-time-in-the-same-layout] fm.layout == "20060102150405Z0700" && fm.t == p1.res0
